@@ -109,9 +109,11 @@ func c12Oracle(core bool, pre c12Pre, op vOp, res vRes, post vSnap) []string {
 		v = append(v, fmt.Sprintf("new-revision-over-retain: %d kept after refreshing to new revision %d, retain %d (setting %q), %d in use", na, target, R, pre.retain, extras))
 	}
 	ci := vIndexOf(pre.snap.Seq, pre.snap.Cur)
+	// revisions left over after the pre-refresh current must be gone, unless it is the target or it is in
+	// use for booting (the in-use clause takes precedence: such a revision must survive, checked below)
 	for _, r := range pre.snap.Seq[ci+1:] {
-		if r != target && vIndexOf(post.Seq, r) >= 0 {
-			v = append(v, fmt.Sprintf("after-current-survived: revision %d was after the current one %d and survived (kept %v -> %v)", r, pre.snap.Cur, pre.snap.Seq, post.Seq))
+		if r != target && vIndexOf(pre.inUse, r) < 0 && vIndexOf(post.Seq, r) >= 0 {
+			v = append(v, fmt.Sprintf("after-current-survived: revision %d was after the current one %d, is neither the target nor in use for booting, and survived (kept %v -> %v)", r, pre.snap.Cur, pre.snap.Seq, post.Seq))
 		}
 	}
 	if post.Cur != target || vIndexOf(post.Seq, target) < 0 {
